@@ -5,7 +5,7 @@ import random
 
 import z3
 
-from harness.common import Ctx, byte_obligation, mi, read_scenario
+from harness.common import Ctx, byte_obligation, io_cases, mi, read_scenario
 from oracles.mem import SymMem, SymOpaque
 from oracles import vhdx as spec
 from symx import core, files, layouts, loader, replay
@@ -107,6 +107,7 @@ def read_task(prop, cfg, tier, seed):
             call=call, total=lambda mo: mi(mo, explen), g0=lambda mo: mi(mo, sector) * ss, spec_at=spec_at, unit=ss,
             extra_units=(block_size,), rng=rng, maxlen=(lambda mo: mi(mo, count * ss)) if cfg.get("tail") else None, j=j, opaque=("parent",) if has_parent else (),
             prefer=[count * ss <= 16 * MB] if block_size <= 8 * MB else [])
+        ctx.scenario.wide = [sector >= 1 << 32, bat_off >= 1 << 40]
         if cfg.get("prime"):
             # C08 lemma 3: an arbitrary earlier request on the same object (real lru_cache in place) must not change
             # what this request returns
@@ -125,6 +126,9 @@ def read_task(prop, cfg, tier, seed):
             res = obj._read(sector * ss, count * ss)
         sv = spec.guest_byte(sector * ss + j, bat_off, block_size, ss, mem, par)
         bad = byte_obligation(res, j, explen, sv, maxlen=count * ss if cfg.get("tail") else None)
+        if cfg.get("io"):
+            nruns = max_count + touched
+            bad += io_cases(fh.reads, 16 * touched + (max_count + 15) // 8 * touched + count * ss, 3 * touched + nruns)
         if has_parent:
             # the parent must only ever be asked for sectors inside the request
             for (ps, pc) in parent.calls:
